@@ -7,6 +7,7 @@
   contrib/limit_bytes.hpp as repaired by the `fix:` commit that counts from `current()`).
 -/
 import PegtlVerif.Lemmas.Rewind
+import PegtlVerif.Lemmas.Twin
 
 namespace Pegtl.C18
 
@@ -82,6 +83,31 @@ theorem C18_bytes_raise (cx : Ctx) (core : St → Out) (n : Nat) (st : St) (r : 
   · rename_i hc
     exact Or.inr ⟨r0, h0, rfl, hc⟩
 
+/-- **Within the limit the guard is invisible.**  Read `limit_depth< N >` in three ways that differ only at the moment
+    the new depth would exceed `N`: the real one raises (`run`), `stuck` does not continue, `off` has the check removed
+    (`Lemmas/Twin.lean`).  A `stuck` run returns only if no depth limit was reached anywhere in the run — at any nesting,
+    also inside predicates and `try_catch` — and then the guarded run and the unguarded run return that very result:
+    same outcome, cursor, trace (every hook, action call and position), surviving actions.  For every grammar, action
+    attachment, input, mode and fuel. -/
+theorem C18_twin (cx : Ctx) (n i : Nat) (a : AMode) (m : RMode) (env : Env) (st : St) (r : Ret)
+    (h : runM .stuck cx n i a m env st = some r) :
+    run cx n i a m env st = some r ∧ runM .off cx n i a m env st = some r :=
+  ⟨by rw [← runM_raise]; exact runM_stuck_le .raise cx n i a m env st r h, runM_stuck_le .off cx n i a m env st r h⟩
+
+/-- The `stuck` reading stops exactly where the guard fires: at a guarded rule entered when the depth is already `N`. -/
+theorem C18_stuck_exact (cx : Ctx) (core : St → Out) (n : Nat) (st : St) :
+    limitDepthCallM .stuck cx core n st = none ↔ (n < st.depth + 1 ∨ core { st with depth := st.depth + 1 } = none) := by
+  simp only [limitDepthCallM]
+  split
+  · rename_i hc; simp; omega
+  · rename_i hc
+    simp only [Option.map_eq_none_iff]
+    constructor
+    · intro h; exact Or.inr h
+    · rintro (h | h)
+      · omega
+      · exact h
+
 /-! ### Non-vacuity -/
 
 /-- `R = seq< one<'('>, opt< R >, one<')'> >` with `limit_depth< 3 >` on `R`;
@@ -106,6 +132,15 @@ example : ∃ r, parseTop { g := exG, inp := #[40, 40, 41, 41] } 20 0 .action .r
     starts, depth back to 0 -/
 example : ∃ r, parseTop { g := exG, inp := #[40, 40, 40, 41, 41, 41] } 20 0 .action .required = some r ∧
     r.res = .thr (.parse (limitDepthId 3) ⟨3, 1, 4⟩) ∧ r.st.depth = 0 := by decide +kernel
+
+/-- the twin runs: on "(())" the stuck reading returns, and it is the guarded and the unguarded result; on "((()))" it does
+    not return, the guarded run raises and the unguarded one matches -/
+example : ∃ r, runM .stuck { g := exG, inp := #[40, 40, 41, 41] } 20 0 .action .required {} (Ctx.start { g := exG, inp := #[40, 40, 41, 41] }) = some r ∧
+    parseTop { g := exG, inp := #[40, 40, 41, 41] } 20 0 .action .required = some r ∧ r.res = .ok := by decide +kernel
+
+example : runM .stuck { g := exG, inp := #[40, 40, 40, 41, 41, 41] } 20 0 .action .required {} (Ctx.start { g := exG, inp := #[40, 40, 40, 41, 41, 41] }) = none ∧
+    (∃ r, runM .off { g := exG, inp := #[40, 40, 40, 41, 41, 41] } 20 0 .action .required {} (Ctx.start { g := exG, inp := #[40, 40, 40, 41, 41, 41] }) = some r ∧
+      r.res = .ok ∧ r.st.cur.pos = 6 ∧ r.st.depth = 0) := by decide +kernel
 
 /-- a greedy `star< any >` under `limit_bytes< 2 >` started at offset 1 of a 5-byte input stops at the
     lowered end and raises; the end is restored -/
